@@ -27,9 +27,11 @@ from harness.lib import scen
 from harness.lib.core import Rng
 
 FOLDERS = {"vsib_a": ["s1.txt", "s2.txt"], "vsib_b": ["t1.txt"]}
+RT_FOLDER, RT_FILE = "vsib_rt", "r1.txt"
 DIVERGE_VERBS = ("node-file-delete", "node-file-corrupt", "node-service-stop", "node-service-pause", "node-service-disable",
                  "node-service-restart", "node-application-close", "node-application-remove", "host-nic-disable",
-                 "network-port-disable", "node-file-restore", "node-service-start", "node-folder-restore")
+                 "network-port-disable", "node-file-restore", "node-service-start", "node-folder-restore",
+                 "node-application-install", "node-application-execute", "node-file-create", "node-folder-create")
 
 
 def _registry() -> Dict[str, Any]:
@@ -64,16 +66,24 @@ def sibling_cfg(cfg: Dict, seed: int, max_hosts: int = 3, force_masking: bool = 
     netnodes = rng.shuffle(sorted(h for h, v in vocab.items() if v["kind"] in ("Router", "Firewall", "Switch", "WirelessRouter")
                                   and len(v["nics"]) >= 2))[:2]
     added: List[Dict[str, Any]] = []
+    import primaite.game.game  # noqa: F401
+    from primaite.simulator.system.applications.application import Application
+    app_names = sorted(Application._registry)
+    runtime: Dict[str, List[str]] = {}
     for hi, h in enumerate(hosts):
         v = vocab[h]
         flip = (hi % 2 == 1)   # both orders of a sibling pair occur: on every second host the second sibling comes first
 
         def order(xs):
             return list(reversed(xs)) if flip else list(xs)
-        files = order([("vsib_a", "s1.txt"), ("vsib_a", "s2.txt"), ("vsib_b", "t1.txt")])
-        folders = order(["vsib_a", "vsib_b"])
+        # targets that come into being DURING the episode (run-time registered routes): a file created in an existing folder, a folder
+        # and a file created from nothing, an application of the registry the host does not have (installed by the action)
+        files = order([("vsib_a", "s1.txt"), ("vsib_a", "s2.txt"), ("vsib_b", "t1.txt")]) + [("vsib_a", RT_FILE), (RT_FOLDER, RT_FILE)]
+        folders = order(["vsib_a", "vsib_b"]) + [RT_FOLDER]
         svcs = order(rng.shuffle(sorted(v["services"]))[:2])
-        apps = order(rng.shuffle(sorted(v["applications"]))[:2])
+        rt_apps = rng.shuffle([a for a in app_names if a not in v["applications"]])[:1]
+        runtime[h] = rt_apps
+        apps = order(rng.shuffle(sorted(v["applications"]))[:2]) + rt_apps
         nics = order(sorted(v["nics"])[:2])
         for ident in sorted(reg):
             fields = [f for f in reg[ident].ConfigSchema.model_fields if f != "type"]
@@ -111,7 +121,18 @@ def sibling_cfg(cfg: Dict, seed: int, max_hosts: int = 3, force_masking: bool = 
         first = base if first is None else first
         for k, e in enumerate(added):
             am[base + k] = copy.deepcopy(e)
-    return cfg, {"hosts": hosts, "netnodes": netnodes, "first": first, "added": len(added)}
+    # prologue: the entries that CREATE the run-time targets, in an order that works (folder, its file, the file in the old folder, install)
+    prologue = []
+    for h in hosts:
+        want = [("node-folder-create", {"folder_name": RT_FOLDER}), ("node-file-create", {"folder_name": RT_FOLDER, "file_name": RT_FILE}),
+                ("node-file-create", {"folder_name": "vsib_a", "file_name": RT_FILE})]
+        want += [("node-application-install", {"application_name": a}) for a in runtime.get(h, [])]
+        for ident, sel in want:
+            k = next((k for k, e in enumerate(added) if e["action"] == ident and e["options"].get("node_name") == h
+                      and all(e["options"].get(x) == y for x, y in sel.items())), None)
+            if k is not None and first is not None:
+                prologue.append(first + k)
+    return cfg, {"hosts": hosts, "netnodes": netnodes, "first": first, "added": len(added), "runtime_apps": runtime, "prologue": prologue}
 
 
 def other_scenarios() -> List[str]:
